@@ -14,7 +14,10 @@ META = {
                   "its handler runs at most once and nothing escapes the serving loop — provided the generated facts say each step sits inside the guarded region and the answer's "
                   "encoding is guarded; the refutations are proved for a tree where it is not (finding F2). One stated exclusion: a handler raising SystemExit/KeyboardInterrupt on a "
                   "connection whose configuration marks that class for local propagation is NOT answered (c08_marked_exception_refuted; the default configuration marks "
-                  "KeyboardInterrupt: known finding F26). A response whose payload cannot be decoded by the requester is outside the model (see C09's F10). Requester side over any history: registered numbers distinct, a response "
+                  "KeyboardInterrupt: known finding F26). The serving-side theorem is PER REQUEST (outcomes are oracles): nesting and the number outstanding matter to it only through "
+                  "each request's own outcome; that a nested dispatch cannot disturb the outer request's answer is carried by the exact statement lists of _dispatch_request "
+                  "(generated, fail-closed) and by the harness (handlers whose callback issues requests of its own and then return / raise / return something unencodable). "
+                  "A response the requester cannot rebuild is routed like an exception response (c08_undecodable_response; F47). Requester side over any history: registered numbers distinct, a response "
                   "invokes exactly its own callback and removes it, answered numbers stay unknown, a failed send unregisters. The facts are regenerated from _dispatch_request / "
                   "_dispatch / _seq_request_callback / _async_request on every run; real request streams (sync, async up to 16 outstanding, nested, raw malformed) are checked "
                   "against a frame ledger and against the extracted model; returned values and exception classes are compared with what each request's own handler produced; "
@@ -23,7 +26,8 @@ META = {
                   "oracles in the theorems (the latter is C04's dump). A message that cannot be decoded at all has no number to answer. Multi-threaded serving is C12/C13.",
     "technique": "Coq proof by induction over request streams with universally quantified outcome oracles; generated guarded-region facts select theorem vs refutation; ledger-based differential run",
     "gen": ["dispatch"],
-    "shapes": ["dispatch.*", "protocol.Connection._dispatch", "protocol.Connection._seq_request_callback", "protocol.Connection._async_request", "protocol.Connection._box_exc"],
+    "shapes": ["dispatch.*", "protocol.Connection._dispatch", "protocol.Connection._seq_request_callback", "protocol.Connection._async_request", "protocol.Connection._box_exc",
+               "protocol.Connection._dispatch_request", "protocol.Connection._send_exc", "protocol.Connection._dispatch_response", "protocol.Connection._send"],
     "models": ["proto"],
     "model_files": ["Proto"],
     "assumptions": ["handler outcomes and encodability are universally quantified oracles in the theorems"],
@@ -52,6 +56,8 @@ class Srv(rpyc.Service):
     def exposed_bigtuple(self, key): self._hit(key); return (1, (BIG, "x"))
     def exposed_boombig(self, key): self._hit(key); raise ValueError(BIG)
     def exposed_nested(self, key, cb): self._hit(key); return cb(key) + 1
+    def exposed_nestboom(self, key, cb): self._hit(key); cb(key); raise ValueError("boom after nesting", key)
+    def exposed_nestbig(self, key, cb): self._hit(key); cb(key); return BIG
     def exposed_stop(self, key): self._hit(key); raise StopIteration()
     def exposed_boombig2(self, key): self._hit(key); raise NeedsArg(BIG)
     def exposed_odd(self, key): self._hit(key); raise Odd("not an Exception subclass", key)
@@ -111,7 +117,17 @@ class Bench:
             if self.server.closed or not self.ss.inbox:
                 return False
             try:
-                self.server.serve(0)
+                if self.server._recvlock.locked():
+                    # the server is itself waiting inside a handler (nested call): its own wait loop would read this frame and
+                    # dispatch it re-entrantly on that stack - emulate exactly that
+                    data = self.server._channel.recv()
+                    self.server._recvlock.release()
+                    try:
+                        self.server._dispatch(data)
+                    finally:
+                        self.server._recvlock.acquire()
+                else:
+                    self.server.serve(0)
             except EOFError:
                 return False
             except BaseException as e:          # what serve_all does: anything else ends the serving loop and closes
@@ -150,7 +166,24 @@ class Bench:
 def V(x): return (R.LABEL_VALUE, x)
 
 
+LOST = {"n": 0}
+
+
+def collect(ar):
+    """the outcome of an asynchronous request, waiting at most 30 s for it (0.5 s once a response of this stream has gone missing)"""
+    ar.set_expiry(30 if not LOST["n"] else 0.5)
+    try:
+        return ("value", ar.value)
+    except EOFError:
+        return ("EOFError", None)
+    except BaseException as e:
+        if type(e).__name__ in ("TimeoutError", "AsyncResultTimeout"):
+            LOST["n"] += 1
+        return ("exc", type(e).__name__)
+
+
 def run_stream(ctx, r, n_ops):
+    LOST["n"] = 0
     b = Bench()
     root = b.client.root
     expect = []       # (key, outcome class, observed by requester)
@@ -163,7 +196,7 @@ def run_stream(ctx, r, n_ops):
             break
         key += 1
         c = r.random()
-        kind = r.choice(["val", "val", "ref", "boom", "big", "bigtuple", "boombig", "boombig2", "nested", "stop", "odd", "genexit"]) if c < 0.7 else "raw"
+        kind = r.choice(["val", "val", "ref", "boom", "big", "bigtuple", "boombig", "boombig2", "nested", "nested2", "nestboom", "nestbig", "stop", "odd", "genexit"]) if c < 0.7 else "raw"
         if kind == "raw":
             raw_seq += 1
             shape = r.choice(["badshape", "badlabel", "stale", "nohandler", "unhashable", "arity"])
@@ -196,6 +229,22 @@ def run_stream(ctx, r, n_ops):
                 b.want[key] = ("eq", 2 * key + 1)
                 call, oc = (lambda k=key: root.nested(k, lambda x: x * 2)), [3, True]
                 acall = (rpyc.async_(root.nested), (key, lambda x: x * 2))
+            elif kind in ("nested2", "nestboom", "nestbig"):
+                # the callback itself issues requests to the server while the server's handler waits for it: the server dispatches them
+                # re-entrantly; then the outer handler returns / raises / returns something the serializer rejects
+                def cb(x, k=key):
+                    a = root.val(k * 1000 + 1, x)                # a nested request, answered while the outer one is being served
+                    try:
+                        root.boom(k * 1000 + 2)                  # and one that fails
+                    except ValueError:
+                        pass
+                    return a * 2
+                meth = {"nested2": "nested", "nestboom": "nestboom", "nestbig": "nestbig"}[kind]
+                if kind == "nested2":
+                    b.want[key] = ("eq", 2 * key + 1)
+                oc = {"nested2": [3, True], "nestboom": [4, True], "nestbig": [3, False]}[kind]
+                call = (lambda k=key, m=meth, f=cb: getattr(root, m)(k, f))
+                acall = (rpyc.async_(getattr(root, meth)), (key, cb))
             else:
                 oc = {"ref": [3, True], "boom": [4, True], "big": [3, False], "bigtuple": [3, False], "boombig": [4, False], "boombig2": [4, False], "stop": [4, True], "odd": [4, True], "genexit": [4, True]}[kind]
                 if kind == "ref":
@@ -212,6 +261,9 @@ def run_stream(ctx, r, n_ops):
             except BaseException as e:
                 res = ("exc", type(e).__name__)
             expect.append((key, kind, oc, res))
+            if res[0] == "exc" and res[1] in ("TimeoutError", "AsyncResultTimeout"):
+                LOST["n"] += 1
+                break          # a response went missing (30 s each): this stream has shown it, do not wait for the next ones
         else:
             try:
                 ar = acall[0](*acall[1])
@@ -221,24 +273,12 @@ def run_stream(ctx, r, n_ops):
         if pend and r.random() < 0.3:
             j = r.randrange(len(pend))
             k2, kind2, oc2, ar = pend.pop(j)
-            try:
-                res = ("value", ar.value)
-            except EOFError:
-                res = ("EOFError", None)
-            except BaseException as e:
-                res = ("exc", type(e).__name__)
-            expect.append((k2, kind2, oc2, res))
+            expect.append((k2, kind2, oc2, collect(ar)))
     for k2, kind2, oc2, ar in pend:
-        try:
-            res = ("value", ar.value)
-        except EOFError:
-            res = ("EOFError", None)
-        except BaseException as e:
-            res = ("exc", type(e).__name__)
-        expect.append((k2, kind2, oc2, res))
+        expect.append((k2, kind2, oc2, collect(ar)))
     usable = True
     try:
-        b.client.ping("still-alive", timeout=30)
+        b.client.ping("still-alive", timeout=30 if not LOST["n"] else 2)
     except BaseException as e:
         usable = False
     return b, expect, raw_reqs, usable
@@ -287,7 +327,7 @@ def check_stream(ctx, model, b, expect, raw_reqs, usable, case):
                               what="a request returned a value other than the one its own handler produced (crossed or altered response)")
         if res[0] == "exc" and res[1] in ("TimeoutError", "AsyncResultTimeout"):
             ctx.violation("response-not-delivered-to-its-request", case, observed=res, expected="its response", what="a request timed out although the peer is up: its response never reached it")
-        cls_want = {"boom": "ValueError", "stop": "StopIteration", "genexit": "GeneratorExit"}.get(kind)
+        cls_want = {"boom": "ValueError", "nestboom": "ValueError", "stop": "StopIteration", "genexit": "GeneratorExit"}.get(kind)
         if res[0] == "exc" and cls_want and res[1] != cls_want:
             ctx.violation("requester-got-another-exception:" + str(res[1]), case, observed=res, expected=cls_want, what="the exception delivered is not the one the handler raised")
         if res[0] == "value" and want_exc:
@@ -498,6 +538,7 @@ def run(ctx):
                 seen.add(cb)
     local_propagation(ctx, model, facts)
     undecodable_response(ctx)
+    lost_streams = 0
     for i in range(n):
         seed = r.randrange(10**9)
         import random
@@ -514,6 +555,9 @@ def run(ctx):
             b.client.close()
         except Exception:
             pass
+        lost_streams = lost_streams + 1 if LOST["n"] else lost_streams
+        if lost_streams >= 2:
+            break              # enough failing streams to report (each lost response costs a request timeout)
     threaded_streams(ctx, 160 if ctx.quick else 3000)
 
 
